@@ -67,11 +67,22 @@ def gen_group(rng, st, depth, names: list) -> dict:
         n = max(n, 1)
     parts = []
     for _ in range(n):
-        if model != 'all' and st['nest'] < 2 and rng.random() < 0.15:
+        if model != 'all' and st['nest'] < 2 and rng.random() < 0.2:
             sub = gen_group(rng, dict(st, top=False, nest=st['nest'] + 1), depth, names)
             if sub['model'] == 'all':
                 sub['model'] = 'sequence'
             sub['occurs'] = rng.choice([(1, 1), (0, 1), (1, 2), (0, None)])
+            if rng.random() < 0.5:
+                # a group that repeats many times: the same names come back once per occurrence of the GROUP (not
+                # through the maxOccurs of an element), so the encoders of the collapsing conventions have to hand
+                # a run of same-named values back to the model one group occurrence at a time (models.py:899-960)
+                sub['occurs'] = rng.choice([(1, 5), (1, None), (2, None), (0, None), (1, 4), (3, 6)])
+                sub['repeat'] = True
+                els = [q for q in sub['parts'] if 'el' in q]
+                if sub['model'] == 'sequence' and els and rng.random() < 0.7:
+                    els[0]['occurs'] = (1, 1)           # a single-occurrence head and optional followers
+                    for q in els[1:]:
+                        q['occurs'] = rng.choice([(0, 1), (0, 1), (0, 2)])
             parts.append(sub)
             continue
         # element particle; sometimes reuse a name already used in this content model (same type,
@@ -90,6 +101,13 @@ def gen_group(rng, st, depth, names: list) -> dict:
             names.append(el)
         if model == 'all':
             el['occurs'] = rng.choice([(1, 1), (0, 1)])
+        parts.append(el)
+    if model == 'sequence' and parts and parts[-1].get('repeat') and rng.random() < 0.7:
+        # something after the repeated group, so that the run is handed back before the content ends
+        st['ctr'][0] += 1
+        el = {'el': rng.choice(['a', 'b', 'c', 'd', 'e', 'item', 'p']) + str(st['ctr'][0]),
+              'type': gen_type(rng, st, 0), 'occurs': rng.choice([(1, 1), (1, 1), (0, 1), (1, 2)])}
+        names.append(el)
         parts.append(el)
     occ = (1, 1)
     if model == 'choice' and rng.random() < 0.4:
@@ -276,6 +294,7 @@ class InstGen:
         self.pfx = pfx            # prefix of the target namespace (None: default namespace)
         self.redeclare = redeclare
         self.budget = 60
+        self.stats: dict = {}
 
     def qname(self, local: str, top=False) -> str:
         if self.s['tns'] and (top or self.s['qualified']):
@@ -316,10 +335,18 @@ class InstGen:
             el.text = None
         return el
 
-    def group(self, g: dict, out: list, depth: int) -> None:
+    def group(self, g: dict, out: list, depth: int, nested: bool = False) -> None:
         rng = self.rng
         lo, hi = g['occurs']
-        n = self.count(lo, hi, depth)
+        n = self.count(lo, hi, depth, 4 if nested else 2)
+        # many occurrences of a nested group: often all of them without the optional members, which gives a run
+        # of >= 3 same-named siblings, one per occurrence of the group
+        lean = nested and n >= 3 and rng.random() < 0.6
+        if nested and n >= 3:
+            self.stats['group-occurrences>=3'] = self.stats.get('group-occurrences>=3', 0) + 1
+            if lean:
+                self.stats['group-occurrences>=3, optional members left out'] = \
+                    self.stats.get('group-occurrences>=3, optional members left out', 0) + 1
         for _ in range(n):
             parts = g['parts']
             if g['model'] == 'choice':
@@ -331,16 +358,19 @@ class InstGen:
                 rng.shuffle(parts)
             for p in parts:
                 if 'model' in p:
-                    self.group(p, out, depth)
+                    self.group(p, out, depth, True)
                 else:
                     plo, phi = p['occurs']
-                    for _ in range(self.count(plo, phi, depth)):
+                    k = self.count(plo, phi, depth)
+                    if lean and plo == 0:
+                        k = 0
+                    for _ in range(k):
                         out.append(self.element(p, depth + 1))
 
-    def count(self, lo, hi, depth) -> int:
+    def count(self, lo, hi, depth, span: int = 2) -> int:
         if self.budget <= 0 or depth > 5:
             return lo if depth <= 9 else min(lo, 1) if lo else 0
-        top = lo + 2 if hi is None else min(hi, lo + 2)
+        top = lo + span if hi is None else min(hi, lo + span)
         return self.rng.randint(lo, top)
 
 
@@ -354,7 +384,12 @@ def gen_instance(rng, schema: dict) -> tuple[str, ET.Element]:
     g = InstGen(rng, schema, pfx, rng.random() < 0.15)
     root = g.element(schema['root'], 0, top=True)
     text = serialize(root, tns, pfx, g.redeclare, rng)
+    LAST_STATS.clear()
+    LAST_STATS.update(g.stats)
     return text, root
+
+
+LAST_STATS: dict = {}       # shape statistics of the instance that `gen_instance` returned last
 
 
 def esc(s: str, attr=False) -> str:
